@@ -57,7 +57,7 @@ pub fn run(ctx: &Ctx, acc: &mut Acc, isas: &[Isa]) {
                     break;
                 }
                 let n = base * mult;
-                let cfg = EmuConfig { heap_bytes: 1 << 22, max_instructions: 2_000_000_000, ..Default::default() };
+                let cfg = EmuConfig { heap_bytes: 1 << 22, max_instructions: 2_000_000_000, enforce_shape: false, ..Default::default() };
                 acc.evaluations += 1;
                 match emulate(*isa, &asm.text, &[n], &cfg) {
                     Ok(r) => {
